@@ -24,7 +24,7 @@ type Model struct {
 
 func newModel() Model {
 	m := Model{T: map[string]*TModel{}}
-	for _, t := range []string{tGen, tMid, tTop, tLeaf, tOther, tColon, tOtherAll} {
+	for _, t := range []string{tGen, tMid, tTop, tLeaf, tOther, tColon, tOtherAll, tDocs} {
 		m.T[t] = &TModel{SawLatest: map[string]bool{}}
 	}
 	return m
